@@ -376,7 +376,7 @@ func lastPeerResult(w *vlib.World, method string, requester *vlib.Identity, arg 
 
 func TestC08(t *testing.T) {
 	ev := vlib.NewEvidence("C08", "exploration",
-		"populations of 0..8 hosts (some registered on a shared connection: one agent, several nodes) with random kind, freshness (LastSeen injected 130 s..1 h old), connection state (closed => CloseRemote), already-peered flag and whitelist behaviour (ack, error, delayed ack, never answer); requester is a client or a host; signed vipnode_peer with Num in {-5,-1,0,1,2,3,supply-1,supply,supply+3} or legacy vipnode_client; MaxRequestHosts in {0,1,2,5}; oracle: every returned host is eligible and acknowledged vipnode_whitelist(requester) (logical stamp) before the reply, count <= min(requested,max), no hosts for <=0, error only if nothing acknowledged, exact count when every active host of the kind is eligible and acknowledges; non-trivial = at least one eligible host and a positive limit; distinct = distinct population+request descriptors")
+		"populations of 0..8 hosts (some registered on a shared connection: one agent, several nodes) with random kind, freshness (LastSeen injected 130 s..1 h old), connection state (closed => CloseRemote), already-peered flag and whitelist behaviour (ack, error, delayed ack, never answer); requester is a client or a host; signed vipnode_peer with Num in {-5,-1,0,1,2,3,supply-1,supply,supply+3} or legacy vipnode_client; MaxRequestHosts in {0,1,2,5}; oracle: every returned host is eligible and acknowledged vipnode_whitelist(requester) (logical stamp) before the reply, count <= min(requested,max), no hosts for <=0, error only if nothing acknowledged, exact count when every active host of the kind is eligible and acknowledges; non-trivial = at least one eligible host and a positive limit; distinct = distinct population+request descriptors; (faults) peer requests while the requester's peer list cannot be read")
 	ev.Assume("never-answering hosts cost the pool's constant 5 s timeout; those cases are a fixed share run in parallel")
 	for _, driver := range vlib.Drivers() {
 		n := vlib.Scale(1500, 20000)
